@@ -3,6 +3,7 @@
 From NW Require Import Base.Bytes Model.SchemaTypes Gen.Schema Model.Codec Model.MsgInfo Model.Ids Model.Server.
 From NW Require Import Proofs.ServerLib Proofs.ServerRoute Proofs.ServerHandlers Proofs.ServerSteps Proofs.ServerPhases.
 From NW Require Import Proofs.ServerInvBase Proofs.ServerInv Proofs.ServerUniq Proofs.ServerInvCor.
+From NW Require Import Gen.Errors Model.Pool Model.Framing Model.Link Proofs.LinkProofs.
 
 Theorem C09_only_success :
   forall (cfg : scfg) (h : N) (m : msg) (p : option (list N)) (c : ctx) (cn : conn),
@@ -39,3 +40,41 @@ Theorem C09_preauth_moves :
     c_phase cn = Connecting \/ c_phase cn = Connected ->
     existsb (N.eqb h) (closing c) = false -> preauth_summary cfg h m c (on_frame cfg h m p c) cn.
 Proof. exact C06_preauth_inert. Qed.
+
+Theorem C09_client_success_only :
+  forall (d : bool) (r : creply) (u : str),
+    c_auth d r = RAuthSuccess u ->
+    d = true /\
+    (exists (m : msg) (p : option (list N)),
+       r = CrMsg m p /\
+       is_kind m "S2M_AUTH_ACK" = true /\
+       get_bool m "succeeded" = true /\ get_ostr m "username" = Some u).
+Proof. exact c_auth_success_only. Qed.
+
+Theorem C09_client_continue_only :
+  forall (d : bool) (r : creply) (ch : str),
+    c_auth d r = RAuthContinue ch ->
+    d = true /\
+    (exists (m : msg) (p : option (list N)),
+       r = CrMsg m p /\
+       is_kind m "S2M_AUTH_ACK" = true /\
+       get_bool m "succeeded" = false /\ get_ostr m "challenge" = Some ch).
+Proof. exact c_auth_continue_only. Qed.
+
+Theorem C09_link_transparent :
+  forall (cfg : lcfg) (hb id : N) (t : str) (o : moutcome),
+    lop_auth cfg = true ->
+    l_max_inflight cfg <> 0 ->
+    auth_ack_fits cfg id o = true ->
+    snd (via_link cfg hb id (McAuth t) o) =
+    match o with
+    | MAuthSuccess u => RAuthSuccess u
+    | MAuthContinue c => RAuthContinue c
+    | MAuthFail => RAuthFail
+    | _ => RErr
+    end /\ In (LMod (McAuth t)) (fst (via_link cfg hb id (McAuth t) o)).
+Proof. exact via_link_auth_transparent. Qed.
+
+Theorem C09_outcome_success_only :
+  forall (r : cresult) (u : str), outcome_of r = MAuthSuccess u -> r = RAuthSuccess u.
+Proof. exact outcome_of_success_only. Qed.
